@@ -13,7 +13,7 @@ Alphabets ==
   [sep  |-> << <<47>>, <<64>>, <<63>>, <<35>>, <<61>>, <<38>>, <<97>> >>,
    \*        /  @  t  T  .  %2e  %2F  %41  %C3%A9  %80  %  1  +
    path |-> << <<47>>, <<64>>, <<116>>, <<84>>, <<46>>, <<37,50,101>>, <<37,50,70>>, <<37,52,49>>,
-               <<37,67,51,37,65,57>>, <<37,56,48>>, <<37>>, <<49>>, <<43>> >>,
+               <<37,67,51,37,65,57>>, <<37,56,48>>, <<37>>, <<49>>, <<43>>, <<233>> >>,
    \*        &  =  k  K  v  %26  %3D  %80  #  ?  "checksum"  "a:0A"  ,
    qual |-> << <<38>>, <<61>>, <<107>>, <<75>>, <<118>>, <<37,50,54>>, <<37,51,68>>, <<37,56,48>>,
                <<35>>, <<63>>, <<99,104,101,99,107,115,117,109>>, <<97,58,48,65>>, <<44>> >>,
